@@ -94,7 +94,7 @@ def extract(trace):
             if kind == "scalar" and lhs == "var_0" and "binary" in v:
                 vals[start] = _to_bytes(v["binary"], sz)
             elif kind == "array":
-                m = re.match(r"var_0\[(\d+)\]$", lhs)
+                m = re.match(r"var_0\[(\d+)[lLuU]*\]$", lhs)
                 if m and "binary" in v and int(m.group(1)) < n:
                     vals[start + int(m.group(1))] = _to_bytes(v["binary"], sz)
                 elif lhs == "var_0" and v.get("name") == "array":
